@@ -606,3 +606,7 @@ mod tests {
         .clone()
     }
 }
+
+#[cfg(kani)]
+#[path = "/verif/kani/arrow-select/nullif.rs"]
+mod verif_kani;
